@@ -968,6 +968,7 @@ func Exec(cs Case) Result {
 		res.Script = r.script
 		switch {
 		case r.runaway:
+			atomic.StoreInt32(&aborted, 1)
 			res.Events = res.Events[:200]
 			res.Outcome, res.Err = "STALL", fmt.Sprintf("more than %d events: a loop that does not end", maxEvents)
 			res.State = cs.St0
@@ -999,6 +1000,13 @@ func Exec(cs Case) Result {
 		res.State = cs.St0
 		r.dead = true
 		NoteStall()
+		if fs.block < 0 && !cs.Block && !fs.cancel && !fs.cancelB {
+			// nothing in this case blocks or is cancelled: the library is spinning or wedged on its own. Its
+			// goroutine cannot be stopped and may allocate without bound (a retry loop around a
+			// sticky encoder error grew to 30 GB within two minutes): the failing input is
+			// recorded, the generators stop here.
+			atomic.StoreInt32(&aborted, 1)
+		}
 	}
 	for _, e := range res.Events {
 		if e.Kind == "N" && !e.Srv {
@@ -1148,7 +1156,12 @@ var CtxKinds = []byte{'c', 'd', 'p', 'n'}
 // path still ends in minutes. A run without stalls never skips anything.
 const StallBudget = 24
 
-var stalls, stallSkipped int32
+var stalls, stallSkipped, aborted int32
+
+// Aborted reports that a run of the library did not end although nothing blocked it; the
+// generators skip everything after that (Emitter.Do returns an empty Result with Outcome
+// "SKIPPED").
+func Aborted() bool { return atomic.LoadInt32(&aborted) != 0 }
 
 // NoteStall records one observed stall.
 func NoteStall() { atomic.AddInt32(&stalls, 1) }
